@@ -28,7 +28,11 @@ func lookupFlow[T any](urlTree *URLTree[T], url string) lookupFlowNodeResult[T] 
 	var part urlPart
 	for index, part = range splitURL {
 		log.Trace().Msgf("lookupFlowNodeResult::Looking up part %v", part)
-		if currentNode.WildcardChild != nil && currentNode.WildcardChild.hasValue() {
+		// a wildcard at the root accepts any URL; below the root a path wildcard
+		// must not swallow further host labels (host.com/* vs host.com.other)
+		if currentNode.WildcardChild != nil && currentNode.WildcardChild.hasValue() &&
+			(currentNode == urlTree.Root ||
+				currentNode.WildcardChild.IsPartOfHost == part.IsPartOfHost) {
 			flows = append(flows, *currentNode.WildcardChild.Value)
 		}
 
